@@ -261,6 +261,14 @@ func pinnedCases() []pinned {
 		out = append(out, pinned{File: "C18/header_case_variant_declared_twice.json", Doc: &c18Case{Property: "C18", Schema: s}})
 	}
 	{
+		// two RPCs without an explicit path under a base_path: both are published at the base path
+		s, _, _, m, svc := baseSchema("p0045")
+		svc.BasePath = "/api/v1"
+		m.HasConfig, m.Path, m.Verb = false, "", 0
+		svc.Methods = append(svc.Methods, &schema.Method{Name: "Undo", Input: s.Pkg + ".DoRequest", Output: s.Pkg + ".DoResponse"})
+		out = append(out, pinned{File: "C18/default_paths_collapse_into_one_operation.json", Doc: &c18Case{Property: "C18", Schema: s}})
+	}
+	{
 		s, _, resp, _, _ := baseSchema("p0060")
 		resp.Oneofs = []*schema.Oneof{{Name: "content", Discriminator: "kind"}}
 		resp.Fields = append(resp.Fields, &schema.Field{Name: "text", Number: 2, Kind: schema.KString, Card: schema.Singular, Oneof: "content"},
